@@ -589,6 +589,24 @@ class Evaluator:
                 return env[e.func.id](*args, **kwargs)
             except Exception as ex:
                 raise Raised(type(ex).__name__, f'{e.func.id}: {ex}')
+        if d == 'next' and len(args) in (1, 2) and not kwargs:
+            it = args[0]
+            if hasattr(it, '__next__'):
+                # a real iterator object (iter(..) of a container the interpreter owns): advancing it is its state
+                try:
+                    return next(it)
+                except StopIteration:
+                    if len(args) == 2:
+                        return args[1]
+                    raise Raised('StopIteration', 'next')
+            if isinstance(it, (list, tuple)) and isinstance(e.args[0], (ast.Call, ast.GeneratorExp)):
+                # a generator made in the argument itself (materialised by the interpreter): its first item, nothing else can see it afterwards
+                if it:
+                    return it[0]
+                if len(args) == 2:
+                    return args[1]
+                raise Raised('StopIteration', 'next')
+            raise Unfoldable('next on a shared iterator')
         if d == 'isinstance' and len(args) == 2:
             kinds = args[1] if isinstance(args[1], tuple) else (args[1],)
             for k_ in kinds:
